@@ -814,6 +814,10 @@ class Point(object):
         p = self.__curve.p()
         a = self.__curve.a()
 
+        if not self.__y % p:
+            # a point of order two: the tangent is vertical
+            return INFINITY
+
         l = (
             (3 * self.__x * self.__x + a)
             * numbertheory.inverse_mod(2 * self.__y, p)
